@@ -177,7 +177,7 @@ def run_audit(props, repo_root, jobs=16, into_evidence=False, verbose=False):
                 if st == "detected":
                     kind = "ALARM"
                 elif st == "analysis-error":
-                    kind = "undecided (expected)" if allowed.get(d.name, ("",))[0] == p else "ALARM (cannot decide)"
+                    kind = "undecided (expected)" if p in (allowed.get(d.name) or {}) else "ALARM (cannot decide)"
                 elif st == "skipped":
                     kind = "skipped"
                 else:
